@@ -141,7 +141,7 @@ Section MovingEv.
   Hypothesis Hnew : f_new (c_filter cfg) = true.
   Hypothesis Hundo : f_undo (c_filter cfg) = true.
 
-  Hypothesis U_id : forall b, In b U -> bid b <> 0 /\ bparent b <> 0 /\ bid b <> bparent b.
+  Hypothesis U_id : forall b, In b U -> bid b <> 0 /\ bid b <> bparent b.
   Hypothesis U_uniq : forall x y, In x U -> In y U -> bid x = bid y -> x = y.
   Hypothesis U_up : forall x y, In x U -> In y U -> bparent x = bid y -> bnum y < bnum x.
   Hypothesis L_id : ri r0 <> 0.
@@ -216,7 +216,7 @@ Section MovingEv.
       extra (db s3) = extra (db s1).
   Proof.
     intros HI Hb Hc HP HC HS.
-    pose proof HI as [Hd Hfin Hflast Hh]. pose proof Hd as [Hnd HU Hcoh Hnum Hextra Hlc].
+    pose proof HI as [Hd Hfin Hflast Hh]. pose proof Hd as [Hnd HU Hcoh Hnum Hextra Hlc Hrt].
     set (en := mkEntry b false) in *. set (q := pP ++ [en]) in *.
     assert (Hq : forall e, In e q -> In e (store (db s1))) by (intros e He; eapply chain_in; eassumption).
     assert (HcP : chain (store (db s1)) (bparent b) (ri (libref (db s1))) pP).
@@ -305,7 +305,7 @@ Section MovingEv.
   Proof.
     intros HI Hls Hb Hne.
     pose proof HI as [Hd Hfin Hflast Hh]. rewrite Hls in Hh. destruct Hh as (_ & p & Hc & HS & Hsent).
-    pose proof Hd as [Hnd HU Hcoh Hnum Hextra Hlc].
+    pose proof Hd as [Hnd HU Hcoh Hnum Hextra Hlc Hrt].
     pose proof (di_wf U r0 U_id U_up _ Hd) as Hwf. pose proof (di_lid U r0 _ Hd) as Hlid. pose proof (di_up U r0 _ Hd) as Hup.
     destruct p as [|et p' _] using rev_ind.
     { apply chain_nil_inv in Hc. contradiction. }
@@ -513,7 +513,7 @@ Section MovingEv.
                 end
     end = junction_of r0 (lib_stored r0 s) (rev (map eb Uh)) (rev (Fin ++ map eb C)).
   Proof.
-    intros HI HX. pose proof HI as [Hd Hfin Hflast _]. pose proof Hd as [Hnd HU Hcoh Hnum Hextra Hlc].
+    intros HI HX. pose proof HI as [Hd Hfin Hflast _]. pose proof Hd as [Hnd HU Hcoh Hnum Hextra Hlc Hrt].
     unfold junction_of. destruct Uh as [|u Uh']; [reflexivity|].
     assert (Hne : rev (map eb (u :: Uh')) <> []) by (cbn [map rev]; destruct (rev (map eb Uh')); discriminate).
     destruct (rev (map eb (u :: Uh'))) as [|x xs]; [congruence|].
@@ -656,7 +656,7 @@ Section MovingEv.
     specialize (Hroot Hci).
     assert (Hf : find (bid b) (store (db s)) = None) by (rewrite Hid; exact Hroot).
     assert (Hk : ~ In (bid b) (keys (store (db s)))) by (apply find_none; exact Hf).
-    destruct (U_id b Hb) as (H1 & H2 & H3).
+    destruct (U_id b Hb) as (H1 & H3).
     pose proof (x_cur _ _ HX) as Hcur.
     unfold fk_step. destruct (N.eqb_spec (bid b) (bparent b)); [contradiction|].
     pose proof Hd as Hd0. unfold dropped in Hd. rewrite Els in *. rewrite Hd, Hci, Hflast.
@@ -716,10 +716,10 @@ Section MovingEv.
     { rewrite (fk_step_dropped U cfg U_id s b Hb Hd). apply stepev_quiet; auto. apply SkSame; auto. }
     destruct (incl_first s b) eqn:Hni.
     { apply step_root_ev; assumption. }
-    pose proof HI as [Hdb Hfin Hflast Hh]. pose proof Hdb as [Hnd HU Hcoh Hnum Hextra Hlc].
+    pose proof HI as [Hdb Hfin Hflast Hh]. pose proof Hdb as [Hnd HU Hcoh Hnum Hextra Hlc Hrt].
     pose proof (di_wf U r0 U_id U_up _ Hdb) as Hwf.
     destruct (find (bid b) (store (db s))) as [e|] eqn:Hf.
-    { rewrite (fk_step_old' U cfg U_id U_uniq s b e HU Hb Hf Hwf Hni). apply stepev_quiet; auto.
+    { rewrite (fk_step_old' U r0 cfg U_id U_uniq U_up s b e Hdb Hb Hf Hni). apply stepev_quiet; auto.
       apply SkSame; auto. right. split; [exact Hni|]. apply find_is_some_in. eauto. }
     (* a new block *)
     pose proof (inv_add U r0 cfg s Fin S b HI Hb Hf Hni) as HI1.
@@ -737,7 +737,7 @@ Section MovingEv.
       destruct (last_sent s) as [ls|]; [apply scss_total; exact Hwf | eauto]. }
     destruct Hsw as (undos & redos & junc & Hsw).
     rewrite (fk_step_new' U r0 cfg U_id s b undos redos junc Hdb Hb Hf Hd Hni Hsw). cbv zeta. fold s1.
-    pose proof HI1 as [Hdb1 _ _ _]. pose proof Hdb1 as [Hnd1 HU1 _ Hnum1 _ _].
+    pose proof HI1 as [Hdb1 _ _ _]. pose proof Hdb1 as [Hnd1 HU1 _ Hnum1 _ _ _].
     pose proof (di_wf U r0 U_id U_up _ Hdb1) as Hwf1.
     change (new_db (db s) b) with (db s1).
     destruct (rs_total (db s1) first Hwf1 (fuel_of (db s1)) (bid b) (bnum b) [] (enough_fuel_of _ _)) as [[longest reach] Hrs].
@@ -788,7 +788,7 @@ Section MovingEv.
           -- rewrite app_nil_r. reflexivity.
           -- rewrite app_nil_r. exact HS.
           -- congruence.
-      + destruct (scss_link_j (db s) _ (bid hd) (bparent b) pH pP Hwf Hneq HcH HcP0) as (C & R & Uh & HP & HH & Hsc).
+      + destruct (scss_link_j (db s) _ (bid hd) (bparent b) pH pP Hwf (di_lid U r0 _ Hdb) Hneq HcH HcP0) as (C & R & Uh & HP & HH & Hsc).
         { intros f t e0 Hu He0. exact (tail_disjoint' U r0 cfg U_id U_up L_id (db s) pP (bparent b) Hdb HcP0 f t e0 Hu He0). }
         rewrite Hsc in Hsw. injection Hsw as <- <- Hjunc.
         rewrite (junction_moving s Fin S C Uh HI HX) in Hjunc.
